@@ -279,3 +279,83 @@ META = {
         "L4 composition lemma (request-order grants with read grouping over whole histories) as a machine-checked lemma harness",
     ],
 }
+
+
+# ---- async_rw_mutex move assignment (added by main after seeded change C04-9 was missed) -----------------------------------------------------
+import re as _re4
+from vx import lift as _L4
+
+
+class _MutexMoveAssign(Lift):
+    """`async_rw_mutex& operator=(async_rw_mutex&&) noexcept` of the which-th class definition: an explicit body is sliced (parameter
+    renamed to rhs); `= default` becomes the member-wise move assignment over the class's non-static data members, read from the class text."""
+
+    def __init__(self, src, which, rules):
+        Lift.__init__(self, src, r"async_rw_mutex& operator=\(async_rw_mutex&&", rules=rules)
+        self.which_cls = which
+
+    def run(self):
+        src = _L4.strip_comments(open(os.path.join(_L4.REPO, self.src)).read()) if hasattr(_L4, "strip_comments") else open(os.path.join(_L4.REPO, self.src)).read()
+        ms = list(_re4.finditer(r"async_rw_mutex& operator=\(async_rw_mutex&&(?:\s+(\w+))?\)\s*noexcept", src))
+        if len(ms) != 2:
+            raise _L4.LiftError("async_rw_mutex move assignment: %d declarations found (expected 2)" % len(ms))
+        m = ms[self.which_cls]
+        line = src.count("\n", 0, m.start()) + 1
+        tail = src[m.end():]
+        d = _re4.match(r"\s*=\s*default\s*;", tail)
+        if d:
+            cls = [c for c in _re4.finditer(r"\bclass async_rw_mutex(?:<[^>{;]*>)?\s*\{", src) if c.start() < m.start()]
+            if not cls:
+                raise _L4.LiftError("enclosing class of the move assignment not found")
+            op = cls[-1].end() - 1
+            cl = _L4.match_close(src, op, "{", "}")
+            body, depth, chunk, members = src[op + 1:cl], 0, "", []
+            for ch in body:
+                if ch == "{":
+                    depth += 1
+                elif ch == "}":
+                    depth -= 1
+                    if depth == 0:
+                        chunk = ""
+                        continue
+                if depth == 0:
+                    if ch == ";":
+                        c = " ".join(chunk.split())
+                        c = _re4.sub(r"^(?:public|private|protected)\s*:\s*", "", c)
+                        c = _re4.sub(r"^#\s*\w+[^\n]*", "", c).strip()
+                        mm = _re4.match(r"(?:PIKA_NO_UNIQUE_ADDRESS\s+)?[\w:<>]+\s+(\w+)(?:\s*=\s*.+)?$", c)
+                        if mm and "(" not in c.split("=")[0] and not _re4.match(r"(using|template|friend|static|typedef|class|struct|enum)\b", c):
+                            members.append(mm.group(1))
+                        chunk = ""
+                    else:
+                        chunk += ch
+            if "state" not in members or "prev_access" not in members:
+                raise _L4.LiftError("member census of async_rw_mutex: %r" % members)
+            text = "{ " + " ".join("%s = std::move(rhs.%s);" % (n, n) for n in members) + " return *this; }"
+            raw = src[m.start():m.end() + d.end()]
+        else:
+            i = m.end() + _re4.match(r"\s*", tail).end()
+            if src[i] != "{":
+                raise _L4.LiftError("no body after the move assignment")
+            e = _L4.match_close(src, i, "{", "}")
+            text, raw = src[i:e + 1], src[m.start():e + 1]
+            if m.group(1):
+                text = _re4.sub(r"\b%s\b" % _re4.escape(m.group(1)), "rhs", text)
+        text = _L4.apply_rules(_L4.apply_rules(_L4.resolve_pp(text), self.rules), _L4.GENERIC_RULES)
+        return {"text": text, "line": line, "file": self.src, "raw": raw, "nloops": 0, "header": ""}
+
+
+import os
+_MM_RULES = [
+    Sub(r"(?<![\w.>])(\w+) = std::move\(rhs\.(\w+)\);", r"self->\1 = rhs->\2;", None),
+    Sub(r"(?<![\w.>])(\w+) = rhs\.(\w+);", r"self->\1 = rhs->\2;", None),
+    Sub(r"\brhs\.", "rhs->", None),
+    Sub(r"async_rw_mutex_access_type::(\w+)", r"access_\1", None),
+    Sub(r"return \*this;", "return self;", None),
+]
+for _i, _nm, _hv in [(0, "void", 0), (1, "T", 1)]:
+    UNITS.append(Unit("mutex.move_assign." + _nm, "mutex_move.c", defines=["HAS_VALUE=%d" % _hv], enforce="mutex_move_assign",
+                      lifts={"body": _MutexMoveAssign(HPP, _i, _MM_RULES)},
+                      funcs=[HPP + ": async_rw_mutex<%s>::operator=(async_rw_mutex&&)" % ("void, void, Allocator" if _hv == 0 else "ReadWriteT, ReadT, Allocator")],
+                      min_obligations=3,
+                      doc="F: the assigned-to mutex takes over the other mutex's current shared state TOGETHER with the kind of its last access (and allocator, value)"))
